@@ -78,12 +78,15 @@ theorem cinv_closed {A : Nat × Nat → Prop} {s : State} (p c : Nat) (h : CInv 
   · dsimp only
     split <;> exact h.of_eq rfl rfl rfl
 
-theorem cinv_sendingChanged {A : Nat × Nat → Prop} {s : State} (p : Nat) (st : Sending)
-    (h : CInv A s) : CInv A (sendingChanged s p st) := by
+theorem cinv_sendingChanged {A : Nat × Nat → Prop} {s : State} (p src : Nat) (st : Sending)
+    (h : CInv A s) : CInv A (sendingChanged s p src st) := by
   unfold sendingChanged
   split
-  · exact h.of_eq rfl rfl rfl
   · exact h
+  · unfold setSending
+    split
+    · exact h.of_eq rfl rfl rfl
+    · exact h
 
 theorem cinv_get {A : Nat × Nat → Prop} {s : State} (k : Nat) (fits : Bool) (h : CInv A s) :
     CInv A (get s k fits).1 := by
